@@ -82,6 +82,10 @@ violations, unreproduced, seen_keys = [], [], set()
 replay_dir = f"{out}/replay/{pid}"
 for f in candidates[:40]:
     j = json.load(open(f))
+    # (the zoo of the tier: `check --replay` rebuilds the seeded zoo for cases of a thorough run)
+    j.setdefault("seed", seed)
+    j.setdefault("tier", tier)
+    json.dump(j, open(f, "w"), indent=1)
     key = j.get("key", "")
     if key in seen_keys:
         continue
